@@ -40,6 +40,11 @@ def gen_cases(tier, seed):
     for wt in (("uhf",) if q else ("rhf", "uhf")):
         for rep in range(1 if q else 3):
             cases.append({"type": "rdm2", "wt": wt, "shape": [2, 1, 1], "dt": 0.02, "s": int(rng.integers(1 << 30)), "group": "r2-%s-%d" % (wt, rep), "cost": 60})
+    # the real driver in reverse / forward mode with an explicit observable (spin-free matrix for restricted walkers, spin-stacked for
+    # unrestricted ones), in the exactly solvable one-body limit: rdm1_afqmc.npz and the observable column against the analytic values
+    for wt in ("rhf", "uhf"):
+        for mode in (("reverse",) if q else ("reverse", "forward")):
+            cases.append({"type": "driverobs", "wt": wt, "ad_mode": mode, "s": int(rng.integers(1 << 30)), "group": "drvobs-%s-%s" % (wt, mode), "cost": 50})
     # lattice-type two-body terms (site-diagonal, symmetry-equivalent sites => exactly tied pivots in the re-decomposition of the ERI tensor)
     for wt in (("rhf", "uhf") if q else ("rhf", "uhf", "rhf", "uhf")):
         cases.append({"type": "rdm2site", "wt": wt, "shape": [2, 1, 2], "dt": 0.02, "s": int(rng.integers(1 << 30)),
@@ -61,6 +66,75 @@ def _pivoted_cholesky_ref(mat, nchol):
         vecs.append(v)
         d = d - v * v
     return np.array(vecs)
+
+
+def run_driverobs(case):
+    import contextlib
+    import io
+    import os
+    import shutil
+    import tempfile
+
+    import jax.numpy as jnp
+
+    from ad_afqmc import config, driver, sampling
+    from checks.c12 import build
+
+    rng = np.random.default_rng(case["s"])
+    wt = case["wt"]
+    nw, dt = 6, 0.02
+    S = build(wt, rng, nw, dt)
+    norb = S["norb"]
+    na, nb = S["nelec"]
+    hd = S["ham_data"]
+    h1 = np.asarray(hd["h1"])
+    h1s = [(h1[s_] + h1[s_].T) / 2 for s_ in range(2)]
+    if wt == "rhf":
+        h1s = [(h1s[0] + h1s[1]) / 2] * 2
+    rho, e_exact = [], float(np.asarray(hd["h0"]))
+    for s_, n_s in ((0, na), (1, nb)):
+        w_, v_ = np.linalg.eigh(h1s[s_])
+        rho.append(v_[:, :n_s] @ v_[:, :n_s].T)
+        e_exact += float(np.sum(w_[:n_s]))
+    O = rng.normal(size=(norb, norb))
+    O = (O + O.T) / 2
+    const = float(rng.normal())
+    if wt == "rhf":
+        obs = [jnp.array(O), const]                 # what mpi_jax builds from observable.h5 for restricted walkers
+        resp = float(np.sum(rho[0] * O) + np.sum(rho[1] * O)) + const
+    else:
+        O2 = rng.normal(size=(norb, norb))
+        O2 = (O2 + O2.T) / 2
+        obs = [jnp.array(np.array([O, O2])), const]
+        resp = float(np.sum(rho[0] * O) + np.sum(rho[1] * O2)) + const
+    h_raw = {"h0": hd["h0"], "h1": hd["h1"], "chol": jnp.zeros_like(hd["chol"]), "ene0": 0.0}
+    nblocks = 4
+    smp = sampling.sampler(n_prop_steps=3, n_ene_blocks=1, n_sr_blocks=2, n_blocks=nblocks)
+    options = {"dt": dt, "n_walkers": nw, "n_prop_steps": 3, "n_ene_blocks": 1, "n_sr_blocks": 2, "n_blocks": nblocks, "n_ene_blocks_eql": 1, "n_sr_blocks_eql": 1,
+               "n_eql": 1, "seed": case["s"] % 65521, "ad_mode": case["ad_mode"], "orbital_rotation": True, "do_sr": True, "walker_type": wt, "symmetry": False,
+               "save_walkers": False, "trial": "rhf" if wt == "rhf" else "uhf", "ene0": 0.0, "free_projection": False, "n_batch": 1}
+    wd = dict(S["wave_data"])
+    wd.pop("rdm1", None)
+    cwd0 = os.getcwd()
+    tmp = tempfile.mkdtemp(prefix="verif_c06drv_")
+    os.chdir(tmp)
+    try:
+        with contextlib.redirect_stdout(io.StringIO()):
+            e, err = driver.afqmc(h_raw, S["ham"], S["prop"], S["trial"], wd, smp, obs, options, config.not_MPI())
+        rows = np.loadtxt("samples_raw.dat").reshape(-1, 3)
+        rdm = np.load("rdm1_afqmc.npz")["rdm1"] if case["ad_mode"] == "reverse" else None
+    finally:
+        os.chdir(cwd0)
+        shutil.rmtree(tmp, ignore_errors=True)
+    key = "C06/driver-observable/%s/%s" % (case["ad_mode"], wt)
+    events = [judge("driver/one-body-block-energies", float(np.max(np.abs(rows[:, 1] - e_exact))), 2e-5 * max(1.0, abs(e_exact)), key + "/energy", exact=e_exact),
+              judge("driver/observable-column-is-tr-rho-O-plus-constant", float(np.max(np.abs(rows[:, 2] - resp))), 2e-5 * max(1.0, abs(resp)), key + "/observable",
+                    got=rows[:, 2].tolist(), exact=resp)]
+    if rdm is not None:
+        events.append(judge("driver/rdm1-file-is-the-exact-density-matrix-per-spin", max(float(np.max(np.abs(rdm[0] - rho[0]))), float(np.max(np.abs(rdm[1] - rho[1])))), 2e-5,
+                            key + "/rdm1", shape=list(rdm.shape), trace=[float(np.trace(rdm[0])), float(np.trace(rdm[1]))], nelec=[na, nb]))
+    return {"events": events, "nontrivial": True, "sample": {"wt": wt, "ad_mode": case["ad_mode"], "observable_column": rows[:, 2].tolist(), "exact": resp},
+            "counters": {"vjp_calls": 0, "jvp_calls": 0, "one_body_limit": 0, "driver_observable_runs": 1}}
 
 
 def run_rdm2site(case):
@@ -396,4 +470,4 @@ def run_rdm2(case):
 
 
 def run_case(case):
-    return {"deriv": run_deriv, "rdm2": run_rdm2, "rdm2site": run_rdm2site}[case["type"]](case)
+    return {"deriv": run_deriv, "rdm2": run_rdm2, "rdm2site": run_rdm2site, "driverobs": run_driverobs}[case["type"]](case)
